@@ -270,13 +270,14 @@ class Result:
 
 
 def load_known():
-    f = VERIF / "known_findings.jsonl"
     out = []
-    if f.exists():
-        for line in f.read_text().splitlines():
-            line = line.strip()
-            if line and not line.startswith("#"):
-                out.append(json.loads(line))
+    files = [VERIF / "known_findings.jsonl"] + sorted((VERIF / "known_findings.d").glob("*.jsonl"))
+    for f in files:
+        if f.exists():
+            for line in f.read_text().splitlines():
+                line = line.strip()
+                if line and not line.startswith("#"):
+                    out.append(json.loads(line))
     return out
 
 
